@@ -360,10 +360,44 @@ func (p *Path) quoteBytes(bs []*Term) []*Term {
 		}
 		return p.constBytes(strconv.Quote(string(raw)))
 	}
-	// symbolic content: quotes without escaping (printable, quote-free content assumed; noted)
-	p.note("fmt %q on symbolic text rendered without escapes")
+	// symbolic content: strconv.Quote byte by byte; the class of every symbolic
+	// byte is decided by forking (quote, backslash, printable ASCII, the seven
+	// named control escapes, \xNN for the other ASCII control bytes). Symbolic
+	// bytes >= 0x80 would need UTF-8 decoding across bytes: outside the bound.
 	out := []*Term{p.byteConst('"')}
-	out = append(out, bs...)
+	esc := func(c byte) { out = append(out, p.byteConst('\\'), p.byteConst(c)) }
+	for _, b := range bs {
+		if b.IsConst() {
+			q := strconv.Quote(string([]byte{byte(constU(b))}))
+			if constU(b) >= 0x80 {
+				p.abortf(abortOutOfBound, "fmt %%q: non-ASCII byte next to symbolic text")
+			}
+			out = append(out, p.constBytes(q[1:len(q)-1])...)
+			continue
+		}
+		switch {
+		case p.branch(p.byteEq(b, p.byteConst('"')), "quote-dq"):
+			esc('"')
+		case p.branch(p.byteEq(b, p.byteConst('\\')), "quote-bs"):
+			esc('\\')
+		case p.branch(p.byteInRange(b, 0x20, 0x7e), "quote-printable"):
+			out = append(out, b)
+		case p.branch(p.byteInRange(b, 0x80, 0xff), "quote-nonascii"):
+			p.abortf(abortOutOfBound, "fmt %%q on a symbolic non-ASCII byte (UTF-8 decoding of symbolic text is outside the bound)")
+		default:
+			named := false
+			for _, pr := range [][2]byte{{7, 'a'}, {8, 'b'}, {9, 't'}, {10, 'n'}, {11, 'v'}, {12, 'f'}, {13, 'r'}} {
+				if p.branch(p.byteEq(b, p.byteConst(pr[0])), "quote-ctl") {
+					esc(pr[1])
+					named = true
+					break
+				}
+			}
+			if !named {
+				out = append(out, p.byteConst('\\'), p.byteConst('x'), p.hexDigit(p.nibble(b, true), false), p.hexDigit(p.nibble(b, false), false))
+			}
+		}
+	}
 	return append(out, p.byteConst('"'))
 }
 
